@@ -168,7 +168,7 @@ func runLists(sc *Scenario) (*core.Violation, uint64) {
 		tab = append(tab, lh{o, s})
 	}
 	var h uint64
-	next := -1 // the first value pushed is the zero value
+	next := -1                                                          // the first value pushed is the zero value
 	same := func(o *lists.Element[int], s *list.Element) (bool, bool) { // (corresponds, bothUnknown)
 		if o == nil || s == nil {
 			return o == nil && s == nil, false
